@@ -1,0 +1,41 @@
+//go:build verif
+
+package transp
+
+import (
+	"github.com/paulsonkoly/chess-3/board"
+	"github.com/paulsonkoly/chess-3/move"
+
+	. "github.com/paulsonkoly/chess-3/chess"
+)
+
+// Verification hooks, compiled only with -tags verif.
+
+// VerifMatch64 exposes the lane matching helper.
+func VerifMatch64(w uint64, key uint16) (int, bool) { return match64(w, partialKey(key)) }
+
+// VerifBucketIx exposes the bucket index of hash.
+func (t *Table) VerifBucketIx(hash board.Hash) int { return t.bucketIx(hash) }
+
+// VerifBuckets is the number of buckets.
+func (t *Table) VerifBuckets() int { return len(t.data) }
+
+// VerifRawEntry is the stored representation of one entry.
+type VerifRawEntry struct {
+	Move   move.Move
+	Value  Score
+	Packed byte
+	Gen    Gen
+}
+
+// VerifBucket dumps the raw content of bucket ix.
+func (t *Table) VerifBucket(ix int) (pKeys uint64, entries [bucketEntryCnt]VerifRawEntry) {
+	b := &t.data[ix]
+	for i, e := range b.entries {
+		entries[i] = VerifRawEntry{Move: e.Move, Value: e.value, Packed: byte(e.packed), Gen: e.gen}
+	}
+	return b.pKeys, entries
+}
+
+// VerifQuality exposes the replacement quality function.
+func VerifQuality(curr, g Gen, d Depth) int { return quality(curr, g, d) }
